@@ -312,3 +312,8 @@ def check_C04(rep, fl):
     props_life.check_handle_item_pairing(rep, fl, collisions=False)
     # R04.5: an insert accepted after clear() has returned is not discarded by that clear's drain
     props_life.check_clear(rep, fl)
+    # "stays retrievable until .. its TTL elapses": a lookup refuses an entry only for another key's conflict hash
+    # or a deadline that has really passed (the lookup guards and the deadline arithmetic of C02 / C03)
+    props_store.check_lookup_guards(rep, fl)
+    props_store.check_time(rep, fl)
+    props_store.check_em_insert(rep, fl)
